@@ -1,4 +1,5 @@
 import BigDec.Proofs.Digits
+import BigDec.Proofs.EstCode
 import BigDec.Proofs.Arith
 import BigDec.Model.Round
 /-! # C18 — representation accessors and canonical form are faithful -/
@@ -6,11 +7,25 @@ namespace BigDec
 open Generated
 
 /-- `digits()` / `count_decimal_digits_uint` is the exact decimal digit count (1 for zero) for
-    every integer, provided the bit-length estimate satisfies the scalar condition
-    `∀ b, 10^(est b) ≤ 2^b` (proved below for the real-valued formula; checked exhaustively over
-    the bit length for the f64 formula by the harness). -/
+    every integer, provided the bit-length estimate satisfies the scalar condition `EstOK`
+    (`10^(est(b+1) - 1) ≤ 2^b`: proved below for the real-valued formula and, up to 2^40 bits, for
+    the code's own f64 quotient). -/
 theorem C18_digits {est : Nat → Nat} (h : EstOK est) (n : Nat) :
     countDigitsUint est n = numDigits n := countDigitsUint_spec h n
+
+/-- **the code's f64 digit estimate satisfies the scalar condition** for every bit length up to 2^40:
+    `(bits as f64 / LOG2_10) as u64`, computed through the rounding primitive of C14, exceeds
+    `log10 2^(bits-1)` by less than one.  (The stronger `10^est ≤ 2^bits` is false at
+    146 964 308 bits - that was defect F15 in `get_rounding_term`.) -/
+theorem C18_est_code (b : Nat) (hb : b < 2 ^ 40) : 10 ^ (F64.estCode (b + 1) - 1) ≤ 2 ^ b := F64.estCode_ok b hb
+
+/-- `digits()` with the code's own estimate: exact for every integer below 2^40 bits -/
+theorem C18_digits_code (n : Nat) (h : n.log2 + 1 ≤ 2 ^ 40) :
+    countDigitsUint F64.estCode n = numDigits n := countDigitsUint_code n h
+
+/-- `get_rounding_term` with the code's own estimate: 1 iff the leading decimal digit is at least 5 -/
+theorem C18_rounding_term_code (n : Nat) (h : n.log2 + 1 ≤ 2 ^ 40) :
+    getRoundingTerm F64.estCode n = roundTerm n := getRoundingTerm_code n h
 
 /-- what "number of digits" means: `10^(d-1) ≤ n < 10^d` -/
 theorem C18_numDigits_char (n : Nat) (h : n ≠ 0) :
